@@ -4,7 +4,8 @@
    Level reached: every executable reference specification used by the correspondence check
    (model/Algos.v) is proved equal to its declarative definition for ALL graphs; the
    validation predicate for returned paths is proved to accept exactly real paths; Prim's
-   original incoming-edge lookup is refuted on a witness.  The classical optimality theorems
+   original incoming-edge lookup is refuted on a witness; the bfs model is proved sound (returns
+   real paths, never shorter than the optimum).  The classical optimality theorems
    about the algorithm models (C26_bfs_optimal_full, C26_dijkstra_optimal_full,
    C26_prim_minimal_full) are stated below and are NOT proved: the models are tied to the
    specifications by the correspondence check only (see checks/C26.json "partial"). *)
@@ -132,6 +133,28 @@ Proof. exact lcc_u_def. Qed.
 Theorem C26_lcc_directed_arc : forall g u v, darc g u v = true <-> u <> v /\ arc g u v.
 Proof. exact darc_spec. Qed.
 
+(* ---- the bfs model as written (partial) -------------------------------------------- *)
+
+(* whatever the model of pathfinding.rs bfs returns is a real path of the graph from s to t,
+   its cost is its number of edges, and that is at least the specification's hop distance
+   (which exists).  Missing for C26_bfs_optimal_full: the converse inequality (FIFO order
+   invariant), "None only when unreachable", and that the model's fuel always suffices. *)
+Theorem C26_bfs_sound_partial : forall g s t p c, wf g ->
+  bfs_model g s t = RPath p c ->
+  path_cost (unitw g) p c /\ hd_error p = Some s /\ last p s = t /\
+  c = N.of_nat (length p - 1) /\
+  exists c0, hop_dist g s t = Some c0 /\ (c0 <= c)%N.
+Proof. exact bfs_model_sound. Qed.
+
+(* the cost reported by the model of pathfinding.rs dijkstra is the cost of a real walk from
+   s to t, hence at least the specification's optimum (which exists).  Missing for
+   C26_dijkstra_optimal_full: the converse inequality (settled-set invariant), that the
+   returned vertex list realises exactly that cost, "None only when unreachable", fuel. *)
+Theorem C26_dijkstra_sound_partial : forall g s t p c, wf g ->
+  dijkstra_model g s t = RPath p c ->
+  walk g s t c /\ exists c0, sp_cost g s t = Some c0 /\ (c0 <= c)%N.
+Proof. exact dijkstra_model_cost_sound. Qed.
+
 (* ---- stated, not proved (see "partial") -------------------------------------------- *)
 
 Definition C26_bfs_optimal_full : Prop := forall g s t, wf g -> s < gn g -> t < gn g ->
@@ -178,3 +201,5 @@ Print Assumptions C26_spec_mst.
 Print Assumptions C26_prim_original_defect.
 Print Assumptions C26_triangle_def.
 Print Assumptions C26_lcc_def.
+Print Assumptions C26_bfs_sound_partial.
+Print Assumptions C26_dijkstra_sound_partial.
